@@ -6,7 +6,8 @@
                              Header.Epoch := LocalEpoch()  (1.3: postHandshake.writeApplicationData, same)
    conn.go processPacket /   the record is protected iff pkt.ShouldEncrypt (1.2: CipherSuite.Encrypt,
      processHandshakePacket  1.3: sealRecordContent); its epoch is pkt.Record.Header.Epoch
-   conn.go notify:           alert at Epoch LocalEpoch(), ShouldEncrypt: isHandshakeCompletedSuccessfully()
+   conn.go notify:           alert at Epoch LocalEpoch(), ShouldEncrypt: isHandshakeCompletedSuccessfully(), or
+                             (5aa3cd1) DTLS 1.3 with LocalEpoch >= 2 while the handshake runs
    conn.go close:            close_notify only if the handshake completed (then protected)
    flight12/flight*handler   packet shapes of the generators: everything Epoch 0 in clear, except
                              Finished: Epoch 1 + ShouldEncrypt (flights 4b, 5, 5b, 6)
@@ -131,7 +132,11 @@ Definition step (s : sstate) (o : op) : sstate * list emission :=
          (if is13 (s_ver s) then s_act s
           else match s_cur s with Some f => last_flight V12 f | None => false end)
       then (mkS (s_ver s) true (s_closed s) (s_epoch s) (s_cur s) (s_act s), []) else (s, [])
-  | OAlert => if s_closed s then (s, []) else (s, [mkE KAlert (s_epoch s) (s_est s)])
+  | OAlert =>
+      (* conn.go notify: protected once established; DTLS 1.3 (5aa3cd1) also while the handshake runs as soon as
+         the handshake keys are in use (LocalEpoch >= 2), so that the peer can read it and fail fast *)
+      if s_closed s then (s, [])
+      else (s, [mkE KAlert (s_epoch s) (s_est s || (is13 (s_ver s) && (2 <=? s_epoch s)))])
   | OClose =>
       if s_closed s then (s, []) else
       (mkS (s_ver s) (s_est s) true (s_epoch s) (s_cur s) (s_act s),
@@ -181,7 +186,7 @@ Definition min_app_epoch (v : version) : N := if is13 v then 3 else 1.
 Definition allowed (v : version) (est : bool) (e : emission) : bool :=
   match e_kind e with
   | KApp => est && e_enc e && (min_app_epoch v <=? e_epoch e)
-  | KAlert => Bool.eqb (e_enc e) est && (negb est || (min_app_epoch v <=? e_epoch e))
+  | KAlert => Bool.eqb (e_enc e) (est || (is13 v && (2 <=? e_epoch e))) && (negb est || (min_app_epoch v <=? e_epoch e))
   | KAck => is13 v && e_enc e && (negb est || (3 <=? e_epoch e))
   | KRrc => est && e_enc e && (min_app_epoch v <=? e_epoch e)
   | KCCS => negb (is13 v) && in_tables v e
